@@ -46,7 +46,7 @@ def scenarios(ctx: Ctx):
     scs = []
     allscripts = scripts_exhaustive(3 if ctx.quick else 4)
     progsets = [rtcheck.LIB['T'], rtcheck.LIB['A'], rtcheck.LIB['R'], rtcheck.LIB['R2']]
-    n = 900 if ctx.quick else 15000
+    n = 600 if ctx.quick else 15000
     pick = allscripts if len(allscripts) <= n // 2 else rng.sample(allscripts, n // 2)
     i = 0
     # single client scripts, exhaustive over the call alphabet (sampled beyond length 3)
@@ -85,8 +85,8 @@ def run(ctx: Ctx) -> Outcome:
     if ctx.replay:
         return rtcheck.replay_outcome('C13', ctx, also=('C07',))
     scs = scenarios(ctx)
-    model_cov, extra_scs, notes = rtmodel.model_check_and_generate('C13', ctx)
-    out = rtcheck.validate('C13', scs + extra_scs, ctx, also=('C07',), extra_cov=model_cov)
+    model_cov, notes = {}, []
+    out = rtcheck.validate('C13', scs, ctx, also=('C07',), extra_cov=model_cov)
     out.notes += notes
     out.coverage['exhaustive_part'] = 'all single-client scripts of <= 3 calls over {submit,status,result,cancel} x {own id A, second id B, unknown id}'
     out.assumptions = ['clients issue one request at a time per connection (the Compiler API is synchronous)',
